@@ -55,7 +55,7 @@ def features(cfg):
 
 
 # ------------------------------------------------------------------ implementation runs (child processes, watchdog)
-def run_jobs(jobs, nproc=6, per_job_timeout=40, start_timeout=90):
+def run_jobs(jobs, nproc=6, per_job_timeout=40, start_timeout=90, worker=None):
     """run jobs in `nproc` child processes; a job that does not finish within per_job_timeout is reported as HANG and the
     child is killed and restarted on the remaining jobs. Returns {id: result}"""
     import concurrent.futures as cf
@@ -69,7 +69,7 @@ def run_jobs(jobs, nproc=6, per_job_timeout=40, start_timeout=90):
             d = tempfile.mkdtemp(prefix="aw_", dir=lib.WORK)
             jf, of = os.path.join(d, "jobs.json"), os.path.join(d, "out.jsonl")
             json.dump(todo, open(jf, "w")); open(of, "w").close()
-            p = subprocess.Popen([sys.executable, WORKER, jf, of], env=dict(lib.CHILD_ENV, VERIF_REPO=lib.REPO),
+            p = subprocess.Popen([sys.executable, worker or WORKER, jf, of], env=dict(lib.CHILD_ENV, VERIF_REPO=lib.REPO),
                                  stdout=subprocess.DEVNULL, stderr=subprocess.PIPE)
             last_n = 0; last_t = time.time(); started_any = False
             hung = None
